@@ -269,11 +269,39 @@ def r04_5(run):
            "unshaped = self.reshape(old_shape)" if ok else "views are replayed against a wrong intermediate shape")
 
 
+def r04_6(run):
+    """who-rewrites `_view_children`: a wholesale rebuild must be a map over the *same* tensor's children (or, for a placeholder, over the
+    children of the tensor it stands in for); otherwise sibling views are silently dropped from the family"""
+    fx = facts(run)
+    n = 0
+    for (fi, mod, st, t, val, kind) in fx.attribute_stores():
+        if t.attr != "_view_children" or kind != "assign":
+            continue
+        comps = [x for x in ast.walk(val)] if val is not None else []
+        gens = [x for x in comps if isinstance(x, (ast.ListComp, ast.GeneratorExp))]
+        if not gens:
+            continue  # a fresh empty container (constructor)
+        n += 1
+        owner = norm(t.value)
+        src = gens[0].generators[0].iter
+        srcn = norm(src)
+        srco = norm(src.value) if isinstance(src, ast.Attribute) and src.attr == "_view_children" else None
+        same = srco == owner
+        mirror = srco is not None and owner in (f"self[{srco}].placeholder", f"graph[{srco}].placeholder")
+        fn = fi.short if fi else mod.name
+        run.ob("R04.6", loc(mod, st), fn, f"rebuild of {owner}._view_children maps that tensor's own children", same or mirror,
+               f"iterates {srcn}" + (" (the tensor this placeholder mirrors)" if mirror else "") if (same or mirror) else
+               f"the new list is built from `{srcn}`, another tensor's children: every sibling view of `{owner}` that is not in that list is dropped "
+               f"from the family and no longer follows in-place updates of the base")
+    run.count("wholesale rebuilds of _view_children", n)
+
+
 def check(run):
     run.rule("R04.1", "an op whose forward result may be (a view of) an operand's array resolves can_return_view=True (ownership domain)", floor=80)
     run.rule("R04.2", "in-place spellings use the same Operation as the out-of-place ones, target self, and return self; __setitem__ routes to SetItem", floor=12)
     run.rule("R04.3", "public tensors change only through mirror_tensor (identity-preserving shallow dict copy); tracked _in_place_op returns nothing; "
              "every view is replayed on its updated parent, parents first", floor=7)
+    run.rule("R04.6", "wholesale rebuilds of a `_view_children` list map the same tensor's own children", floor=2)
     run.rule("R04.5", "shape setter replays a view on the un-reshape exactly when its parent is the re-shaped tensor", floor=2)
     run.rule("R04.4", "Tensor._op: base is None or the memory owner; the three sharing configurations are recognised; views are registered and record "
              "their replay arguments", floor=5)
@@ -282,3 +310,4 @@ def check(run):
     r04_3(run)
     r04_4(run)
     r04_5(run)
+    r04_6(run)
